@@ -26,16 +26,24 @@ FS = LocalFileSystem()
 
 def digest(alg, data):
     if alg == "md5-dos2unix":
-        if istextblock(data[:512]):
-            data = data.replace(b"\r\n", b"\n")
-        return hashlib.md5(data).hexdigest()  # noqa: S324
+        # the legacy algorithm decides text/binary per 1 MiB chunk read (hash.py; the classification itself is C14's subject)
+        md = hashlib.md5()  # noqa: S324
+        for off in range(0, len(data), 2**20):
+            chunk = data[off : off + 2**20]
+            md.update(chunk.replace(b"\r\n", b"\n") if istextblock(chunk[:512]) else chunk)
+        return md.hexdigest()
     return hashlib.new(alg, data).hexdigest()
 
 
 def contents(rng):
     pool = [b"line\r\nline two\r\n", b"line\nline two\n", b"\x00\x01\r\n\xff" * 3, b"", "héllo\r\n".encode(), os.urandom(rng.randint(1, 40)),
             b"crlf " + str(rng.randrange(9)).encode() + b"\r\n"]
-    return rng.sample(pool, rng.randint(2, len(pool)))
+    out = rng.sample(pool, rng.randint(2, len(pool)))
+    if rng.random() < 0.2:
+        # larger than one read chunk, binary head, a later chunk that is CRLF text (and the reverse)
+        tail = b"text line\r\n" * 40
+        out.append(rng.choice([b"\x00\x01\x02" * 5 + b"\xff" * (2**20 - 15) + tail, b"head line\r\n" * 3 + b"-" * (2**20 - 33) + b"\x00\x01" + tail]))
+    return out
 
 
 def objects(store):
@@ -89,7 +97,7 @@ def main():
         except Exception as e:  # noqa: BLE001
             failures.append({"problems": [f"raised {type(e).__name__}: {str(e)[:120]}"]})
     print(json.dumps({"evaluations": n, "distinct_nontrivial": n, "n_failures": len(failures), "failures": failures[:4],
-                      "bound": f"{n} seeded stores: 2-7 objects (CRLF/LF text, binary with CRLF, empty, non-ASCII, random) + one directory listing, "
+                      "bound": f"{n} seeded stores: 2-7 objects (CRLF/LF text, binary with CRLF, empty, non-ASCII, random; one run in five: a > 1 MiB object whose chunks differ in text/binary kind) + one directory listing, "
                                "4 algorithm pairs, 2x2 store classes"}))
 
 
